@@ -234,10 +234,8 @@ func (ep *ExportingProcess) SendSet(set entities.Set) (int, error) {
 	if setType == entities.Undefined {
 		return 0, fmt.Errorf("set type is not properly defined")
 	}
-	for _, record := range set.GetRecords() {
-		if setType == entities.Template {
-			ep.updateTemplate(record.GetTemplateID(), record.GetOrderedElementList(), record.GetMinDataRecordLen())
-		} else if setType == entities.Data {
+	if setType == entities.Data {
+		for _, record := range set.GetRecords() {
 			err := ep.dataRecSanityCheck(record)
 			if err != nil {
 				return 0, fmt.Errorf("error when doing sanity check:%v", err)
@@ -258,6 +256,13 @@ func (ep *ExportingProcess) SendSet(set entities.Set) (int, error) {
 	}
 	if err != nil {
 		return bytesSent, err
+	}
+	if setType == entities.Template {
+		// Templates are recorded only once they have been sent: data sets must not be
+		// accepted for a template that never reached the collector.
+		for _, record := range set.GetRecords() {
+			ep.updateTemplate(record.GetTemplateID(), record.GetOrderedElementList(), record.GetMinDataRecordLen())
+		}
 	}
 	return bytesSent, nil
 }
